@@ -540,3 +540,50 @@ func SameValue(a, b ssa.Value) bool { return sameValue(a, b) }
 
 // Unwrap strips conversions that do not change the identity of a value.
 func Unwrap(v ssa.Value) ssa.Value { return unwrap(v) }
+
+// GuardingConds returns the branch conditions that decide whether `in` executes: the conditions of
+// the If instructions D that dominate in's block and for which only one out-edge of D can lead to
+// `in` (without passing D again). taken[i] tells which outcome (true/false) leads to `in`.
+func GuardingConds(fn *ssa.Function, in ssa.Instruction) (conds []ssa.Value, taken []bool) {
+	tb := in.Block()
+	for _, d := range fn.Blocks {
+		if len(d.Instrs) == 0 || d == tb && false {
+			continue
+		}
+		ifi, ok := d.Instrs[len(d.Instrs)-1].(*ssa.If)
+		if !ok || !d.Dominates(tb) || d == tb {
+			continue
+		}
+		reach := func(start *ssa.BasicBlock) bool {
+			if start == tb {
+				return true
+			}
+			seen := map[*ssa.BasicBlock]bool{start: true} // passing d again is allowed: a loop header does not guard what follows the loop
+			work := []*ssa.BasicBlock{start}
+			for len(work) > 0 {
+				b := work[len(work)-1]
+				work = work[:len(work)-1]
+				for _, s := range b.Succs {
+					if s == tb {
+						return true
+					}
+					if !seen[s] {
+						seen[s] = true
+						work = append(work, s)
+					}
+				}
+			}
+			return false
+		}
+		t, f := reach(d.Succs[0]), reach(d.Succs[1])
+		if t && f {
+			continue
+		}
+		if !t && !f {
+			continue
+		}
+		conds = append(conds, ifi.Cond)
+		taken = append(taken, t)
+	}
+	return
+}
